@@ -11,10 +11,18 @@ VERIF = os.path.dirname(os.path.dirname(os.path.abspath(__file__)))
 
 
 def sh(cmd, cwd=None, timeout=600):
+    # own process group, killed as a whole on timeout (a mutant may loop forever inside a test binary)
+    import signal
+    p = subprocess.Popen(cmd, cwd=cwd, env=ENV, shell=isinstance(cmd, str), stdout=subprocess.PIPE, stderr=subprocess.STDOUT, start_new_session=True)
     try:
-        p = subprocess.run(cmd, cwd=cwd, env=ENV, shell=isinstance(cmd, str), stdout=subprocess.PIPE, stderr=subprocess.STDOUT, timeout=timeout)
-        return p.returncode, p.stdout.decode('utf-8', 'replace')
+        out, _ = p.communicate(timeout=timeout)
+        return p.returncode, out.decode('utf-8', 'replace')
     except subprocess.TimeoutExpired:
+        try:
+            os.killpg(p.pid, signal.SIGKILL)
+        except Exception:
+            pass
+        p.wait()
         return 124, 'timeout'
 
 
